@@ -125,8 +125,11 @@ void SelectFdEvent::OnEventCallback(bool is_readable, bool is_writable, bool is_
 
     //! 要先复制一份，因为在for中很可能会改动到d->fd_events，引起迭代器失效问题
     auto tmp = data->fd_events;
-    for (auto event : tmp)
-        event->onEvent(tbox_events);
+    for (auto event : tmp) {
+        //! 前面的回调可能已经 disable 或销毁了后面的事件，必须确认它仍在监听列表中才能回调
+        if (std::find(data->fd_events.begin(), data->fd_events.end(), event) != data->fd_events.end())
+            event->onEvent(tbox_events);
+    }
 }
 
 void SelectFdEvent::onEvent(short events)
